@@ -273,8 +273,24 @@ theorem core_addPin {g : List Id} {s : St} (h : Core g s) {pin owner : Id} (cls 
     · exact h3 p hp
     · subst hp; exact ho
 
-theorem core_addCluster {g : List Id} {s : St} (h : Core g s) {id : Id} (hx : id ∉ s.created) :
-    Core g (s.addCluster id) := by
+theorem core_setClusterRefs {g : List Id} {s : St} (h : Core g s) (k : Id) (refs : List Id) :
+    Core g (s.setClusterRefs k refs) := by
+  obtain ⟨h1, h2, h3, h4⟩ := h
+  have hk : kids (s.setClusterRefs k refs) = kids s := by
+    simp only [kids, St.setClusterRefs, List.map_map]
+    apply List.map_congr_left
+    intro x _; simp only [Function.comp]; split <;> rfl
+  refine ⟨?_, h2, h3, ?_⟩
+  · rw [hk]; exact h1
+  · intro x hx
+    simp only [St.setClusterRefs, List.mem_map] at hx
+    obtain ⟨x0, hx0, rfl⟩ := hx
+    split
+    · exact h4 x0 hx0
+    · exact h4 x0 hx0
+
+theorem core_addCluster {g : List Id} {s : St} (h : Core g s) {id : Id} (hx : id ∉ s.created)
+    (refs : List Id := []) : Core g (s.addCluster id refs) := by
   obtain ⟨h1, h2, h3, h4⟩ := h
   refine ⟨?_, h2, h3, ?_⟩
   · have := h1.addK hx
@@ -502,7 +518,7 @@ theorem core_processTransaction {g : List Id} {s : St} (h : Core g s) : Core g s
   unfold St.processTransaction
   split
   · exact h
-  · exact core_reroute (core_processActions h)
+  · exact core_congr (core_reroute (core_processActions h)) rfl rfl rfl rfl rfl
 
 theorem core_maybeProcess {g : List Id} {s : St} (h : Core g s) : Core g s.maybeProcess := by
   unfold St.maybeProcess
@@ -698,8 +714,8 @@ theorem core_step {s : St} (h : Core [] s) (op : Op) (hl : LegalDoc s op = true)
   | rDelJunction id =>
     simp only [Bool.and_eq_true] at hl
     dsimp only
-    rw [if_neg (by simp [hl.1])]
-    exact core_removeFromQueue (core_freeObstacle h (hasJunction_obst hl.1)) _
+    rw [if_neg (by simp [hl.1.1])]
+    exact core_removeFromQueue (core_freeObstacle h (hasJunction_obst hl.1.1)) _
   | rNewJunction id pin =>
     simp only [Bool.and_eq_true] at hl
     obtain ⟨⟨⟨h1, h2⟩, h3⟩, _⟩ := hl
@@ -716,16 +732,18 @@ theorem core_step {s : St} (h : Core [] s) (op : Op) (hl : LegalDoc s op = true)
   | rNewConn id =>
     simp only [Bool.and_eq_true] at hl
     exact core_addConn h true (fresh_of_contains hl.1)
-  | newCluster id => exact core_addCluster h (fresh_of_contains hl)
+  | newCluster id refs =>
+    simp only [Bool.and_eq_true] at hl
+    exact core_addCluster h (fresh_of_contains hl.1) refs
   | deleteCluster id =>
     dsimp only
     rw [if_neg (by simp [hl])]
     exact core_freeCluster h (hasCluster_kids hl)
-  | setClusterPoly id =>
+  | setClusterPoly id refs =>
     dsimp only
     split
     · exact core_addFault h _
-    · exact h
+    · exact core_setClusterRefs h _ _
   | touchConn c =>
     dsimp only
     split
